@@ -17,6 +17,8 @@ TRUSTED = [
     'and the decision skeleton of _commit_or_rollback from /repo on every run (Gen/C18Web.v); fail-closed on any other shape',
     'stub flask / bottle modules of the harness (tools/c18_driver.py): before_request, view, teardown_request(exc) in that order; HTTPError a subclass of HTTPResponse',
     'the harness observes commit/rollback by wrapping the module-level functions pony.orm.core.commit / rollback from outside; SQLite commit is atomic',
+    'hand-written one-attempt fault model Model/C18Faults.v (predicates that raise, rollback() that raises), tied by 144 real cases; the rollback failure is injected at the '
+    'boundary of core.rollback (after the session cache is gone), not inside the DB-API driver',
 ]
 ASSUMPTIONS = [
     'main model (streams, nesting, generators): the predicates allowed_exceptions / retry_exceptions answer and core.rollback() works; predicates that raise and a failing '
